@@ -246,4 +246,241 @@ theorem erasech_effect (vt : VTState) (hw : Spec.WF vt) (hpw : vt.pendingWrap = 
           have h0 := hlast rfl rfl heq
           simp only [VTState.moveTo, VTState.clampCol, hlt, if_false]; omega
 
+/-! ### Scroll rectangle -/
+
+/-- A scroll that reports failure emits nothing. -/
+theorem scroll_failure_silent (caps : Caps) (termCols : Int) (rect : Rect) (downward rightward : Int)
+    (h : (scrollrect caps termCols rect downward rightward).1 = false) :
+    (scrollrect caps termCols rect downward rightward).2 = [] := by
+  unfold scrollrect at h ⊢
+  by_cases h0 : downward = 0 ∧ rightward = 0
+  · rw [if_pos h0]
+  · rw [if_neg h0] at h ⊢
+    simp only [] at h ⊢
+    by_cases h1 : ((caps.slrm = true ∧ rect.lines = 1) ∨ rect.right = termCols) ∧ downward = 0
+    · rw [if_pos h1] at h; cases h
+    · rw [if_neg h1] at h ⊢
+      by_cases h2 : caps.slrm = true ∨ (rect.left = 0 ∧ rect.cols = termCols ∧ rightward = 0)
+      · rw [if_pos h2] at h; cases h
+      · rw [if_neg h2]
+
+example : (scrollrect ⟨false, false, false⟩ 80 ⟨3, 10, 5, 60⟩ 1 0) = (false, []) := by decide
+
+/-- The in-range contract of a scroll request on screen `vt` (DESIGN.md Appendix C). -/
+structure ScrollInRange (vt : VTState) (rect : Rect) (downward rightward : Int) : Prop where
+  lines_pos : 1 ≤ rect.lines
+  cols_pos : 1 ≤ rect.cols
+  top : 0 ≤ rect.top
+  bottom : rect.bottom ≤ vt.lines
+  left : 0 ≤ rect.left
+  right : rect.right ≤ vt.cols
+  down : -rect.lines < downward ∧ downward < rect.lines
+  rightw : -rect.cols < rightward ∧ rightward < rect.cols
+
+/-- The trigger of the defect `scroll_one_column_counterexample`: a one-column rectangle that does not span the
+    terminal, scrolled vertically, with DECSLRM available. -/
+def OneColumnTrigger (caps : Caps) (termCols : Int) (rect : Rect) (downward : Int) : Prop :=
+  caps.slrm = true ∧ rect.cols = 1 ∧ downward ≠ 0 ∧ (rect.left > 0 ∨ rect.right < termCols)
+
+/-- The four shapes of a successful scroll's output. -/
+theorem scrollrect_ichdch_margin (caps : Caps) (tc : Int) (rect : Rect) (r : Int) (hr0 : r ≠ 0)
+    (hs : caps.slrm = true ∧ rect.lines = 1) (hlt : rect.right < tc) :
+    scrollrect caps tc rect 0 r =
+      (true, csi ([0x3b] ++ showInt rect.right ++ [0x73]) ++ (scrollLine rect.top rect.left r ++ csi [0x73])) := by
+  unfold scrollrect
+  rw [if_neg (by intro h; exact hr0 h.2)]
+  simp only []
+  rw [if_pos ⟨Or.inl hs, trivial⟩, if_pos hlt, if_pos hlt]
+  have hl : rect.lines.toNat = 1 := by omega
+  simp [hl]
+
+theorem scrollrect_ichdch_full (caps : Caps) (tc : Int) (rect : Rect) (r : Int) (hr0 : r ≠ 0)
+    (hre : rect.right = tc) :
+    scrollrect caps tc rect 0 r =
+      (true, (List.range rect.lines.toNat).flatMap fun (i : Nat) => scrollLine (rect.top + (i : Int)) rect.left r) := by
+  unfold scrollrect
+  rw [if_neg (by intro h; exact hr0 h.2)]
+  simp only []
+  rw [if_pos ⟨Or.inr hre, trivial⟩, if_neg (by omega), if_neg (by omega)]
+  simp
+
+theorem scrollrect_margins_lr (caps : Caps) (tc : Int) (rect : Rect) (d r : Int) (h0 : ¬ (d = 0 ∧ r = 0))
+    (hB1 : ¬ (((caps.slrm = true ∧ rect.lines = 1) ∨ rect.right = tc) ∧ d = 0))
+    (hB2 : caps.slrm = true ∨ (rect.left = 0 ∧ rect.cols = tc ∧ r = 0))
+    (hneed : rect.left > 0 ∨ rect.right < tc) :
+    scrollrect caps tc rect d r =
+      (true, csi (showInt (rect.top + 1) ++ [0x3b] ++ showInt rect.bottom ++ [0x72]) ++
+        (csi (showInt (rect.left + 1) ++ [0x3b] ++ showInt rect.right ++ [0x73]) ++
+          ((gotoAbs rect.top rect.left ++ signedSeq d [] 0x4d 0x4c ++ signedSeq r [0x27] 0x7e 0x7d) ++
+            (csi [0x72] ++ csi [0x73])))) := by
+  unfold scrollrect
+  rw [if_neg h0]
+  simp only []
+  rw [if_neg hB1, if_pos hB2, if_pos hneed, if_pos hneed]
+  simp [List.append_assoc]
+
+theorem scrollrect_margins_tb (caps : Caps) (tc : Int) (rect : Rect) (d r : Int) (h0 : ¬ (d = 0 ∧ r = 0))
+    (hB1 : ¬ (((caps.slrm = true ∧ rect.lines = 1) ∨ rect.right = tc) ∧ d = 0))
+    (hB2 : caps.slrm = true ∨ (rect.left = 0 ∧ rect.cols = tc ∧ r = 0))
+    (hneed : ¬ (rect.left > 0 ∨ rect.right < tc)) :
+    scrollrect caps tc rect d r =
+      (true, csi (showInt (rect.top + 1) ++ [0x3b] ++ showInt rect.bottom ++ [0x72]) ++
+          ((gotoAbs rect.top rect.left ++ signedSeq d [] 0x4d 0x4c ++ signedSeq r [0x27] 0x7e 0x7d) ++
+            csi [0x72])) := by
+  unfold scrollrect
+  rw [if_neg h0]
+  simp only []
+  rw [if_neg hB1, if_pos hB2, if_neg hneed, if_neg hneed]
+  simp [List.append_assoc]
+
+/-- A scroll that reports success moves exactly the cells of the rectangle by the given offsets, blanks the vacated
+    cells (current background), touches nothing outside and leaves no margins set — for every screen, every in-range
+    rectangle and offsets, both values of the DECSLRM capability, whichever of the strategies the driver picks. -/
+theorem scroll_success_effect (vt : VTState) (hw : Spec.WF vt) (caps : Caps) (hcaps : Spec.CapsOK caps vt)
+    (rect : Rect) (downward rightward : Int) (hin : ScrollInRange vt rect downward rightward)
+    (hone : ¬ OneColumnTrigger caps vt.cols rect downward)
+    (hret : (scrollrect caps vt.cols rect downward rightward).1 = true) :
+    Spec.ScrollOK rect downward rightward vt (run (scrollrect caps vt.cols rect downward rightward).2 vt) := by
+  have hg := hw.ground
+  obtain ⟨hl1, hc1, htop, hbot, hleft, hright, hd, hr⟩ := hin
+  have hb : rect.bottom = rect.top + rect.lines := rfl
+  have hrt : rect.right = rect.left + rect.cols := rfl
+  have mt := hw.mtop; have mb := hw.mbot; have ml := hw.mleft; have mr := hw.mright
+  by_cases h0 : downward = 0 ∧ rightward = 0
+  · -- nothing to do
+    obtain ⟨rfl, rfl⟩ := h0
+    have e : scrollrect caps vt.cols rect 0 0 = (true, []) := by simp [scrollrect]
+    rw [e, run_nil]
+    refine ⟨⟨rfl, rfl, rfl, rfl, rfl, rfl, rfl, rfl, rfl, rfl⟩, ?_, hw.row_lo, hw.row_hi, hw.col_lo, hw.col_hi⟩
+    funext l c
+    simp only [Spec.scrollGrid, Int.add_zero]
+    cells_omega
+  · by_cases hB1 : ((caps.slrm = true ∧ rect.lines = 1) ∨ rect.right = vt.cols) ∧ downward = 0
+    · -- ICH / DCH strategy
+      obtain ⟨hwhich, rfl⟩ := hB1
+      have hr0 : rightward ≠ 0 := by intro h; exact h0 ⟨rfl, h⟩
+      by_cases hlt : rect.right < vt.cols
+      · -- one line between DECSLRM margins
+        have hs : caps.slrm = true ∧ rect.lines = 1 := by
+          cases hwhich with
+          | inl h => exact h
+          | inr h => omega
+        have hdecl : vt.declrmm = true := hcaps hs.1
+        rw [scrollrect_ichdch_margin caps vt.cols rect rightward hr0 hs hlt]
+        simp only []
+        rw [run_append, run_append, run_csi_0n vt hg rect.right (by omega) 0x73 fin_s, dispatch_decslrm, hdecl]
+        simp only [if_true, param_0n0, param_0n1]
+        rw [decslrm_right vt rect.right (by omega) hright, run_scrollLine]
+        · rw [run_csi_0 (f := 0x73), dispatch_decslrm]
+          · simp only [hdecl, if_true, param_00, param_01]
+            rw [decslrm_reset]
+            refine ⟨⟨rfl, rfl, rfl, rfl, ?_, ?_, hdecl.symm, rfl, rfl, rfl⟩, ?_, ?_, ?_, ?_, ?_⟩
+            · simp only []; omega
+            · simp only []; omega
+            · funext l c
+              simp only [Spec.scrollGrid, VTState.blank, Int.add_zero]
+              cells_omega
+            · simp only []; omega
+            · simp only []; omega
+            · simp only []; omega
+            · simp only []; omega
+          · exact hg
+          · exact fin_s
+        · exact hg
+        · simp only []; omega
+        · simp only []; omega
+        · simp only []; omega
+      · -- the rectangle reaches the right edge: one ICH/DCH per line, no margins
+        have hre : rect.right = vt.cols := by omega
+        rw [scrollrect_ichdch_full caps vt.cols rect rightward hr0 hre]
+        simp only []
+        obtain ⟨k, hk⟩ : ∃ k : Nat, rect.lines.toNat = k + 1 := ⟨rect.lines.toNat - 1, by omega⟩
+        rw [hk, run_scrollLines vt hg rect rightward (by omega) (by omega) k (by omega)]
+        refine ⟨⟨rfl, rfl, rfl, rfl, rfl, rfl, rfl, rfl, rfl, rfl⟩, ?_, ?_, ?_, ?_, ?_⟩
+        · funext l c
+          simp only [Spec.scrollGrid, VTState.blank, Int.add_zero]
+          cells_omega
+        · simp only []; omega
+        · simp only []; omega
+        · simp only []; omega
+        · simp only []; omega
+    · by_cases hB2 : caps.slrm = true ∨ (rect.left = 0 ∧ rect.cols = vt.cols ∧ rightward = 0)
+      · -- DECSTBM (+ DECSLRM) margins, IL/DL, DECIC/DECDC
+        -- DECSTBM needs two lines: follows from the contract
+        have hl2 : 2 ≤ rect.lines := by
+          by_cases h1 : rect.lines = 1
+          · exfalso
+            have hd0 : downward = 0 := by omega
+            have hns : ¬ (caps.slrm = true) := fun hs => hB1 ⟨Or.inl ⟨hs, h1⟩, hd0⟩
+            cases hB2 with
+            | inl hs => exact hns hs
+            | inr h => exact h0 ⟨hd0, h.2.2⟩
+          · omega
+        by_cases hneed : rect.left > 0 ∨ rect.right < vt.cols
+        · -- with left/right margins
+          have hs : caps.slrm = true := by
+            cases hB2 with
+            | inl hs => exact hs
+            | inr h => omega
+          have hdecl : vt.declrmm = true := hcaps hs
+          have hc2 : 2 ≤ rect.cols := by
+            by_cases h1 : rect.cols = 1
+            · exfalso
+              have hr0 : rightward = 0 := by omega
+              have hd0 : downward ≠ 0 := fun h => h0 ⟨h, hr0⟩
+              exact hone ⟨hs, h1, hd0, hneed⟩
+            · omega
+          rw [scrollrect_margins_lr caps vt.cols rect downward rightward h0 hB1 hB2 hneed]
+          simp only []
+          rw [run_append, run_csi_nn vt hg (rect.top + 1) rect.bottom (by omega) (by omega) 0x72 fin_r,
+            dispatch_decstbm, param_nn0, param_nn1, decstbm_valid vt rect.top rect.bottom htop (by omega) hbot,
+            run_append, run_csi_nn]
+          · rw [dispatch_decslrm]
+            simp only [hdecl, if_true, param_nn0, param_nn1]
+            rw [decslrm_valid _ rect.left rect.right hleft (by omega) (by simpa using hright), run_append,
+              run_scrollCore]
+            · rw [run_append, run_csi_0 (f := 0x72), dispatch_decstbm]
+              · simp only [param_00, param_01]
+                rw [decstbm_reset, run_csi_0 (f := 0x73), dispatch_decslrm]
+                · simp only [hdecl, if_true, param_00, param_01]
+                  rw [decslrm_reset]
+                  refine ⟨⟨rfl, rfl, ?_, ?_, ?_, ?_, hdecl.symm, rfl, rfl, rfl⟩, rfl, ?_, ?_, ?_, ?_⟩ <;> simp only [] <;> omega
+                · exact hg
+                · exact fin_s
+              · exact hg
+              · exact fin_r
+            · exact hg
+            · simp only []; omega
+            · simp only []; omega
+            · exact ⟨hl1, hc1⟩
+            · exact ⟨rfl, rfl, rfl, rfl⟩
+          · exact hg
+          · omega
+          · omega
+          · exact fin_s
+        · -- full width: no left/right margins needed
+          have hfull : rect.left = 0 ∧ rect.right = vt.cols := by omega
+          rw [scrollrect_margins_tb caps vt.cols rect downward rightward h0 hB1 hB2 hneed]
+          simp only []
+          rw [run_append, run_csi_nn vt hg (rect.top + 1) rect.bottom (by omega) (by omega) 0x72 fin_r,
+            dispatch_decstbm, param_nn0, param_nn1, decstbm_valid vt rect.top rect.bottom htop (by omega) hbot,
+            run_append, run_scrollCore]
+          · rw [run_csi_0 (f := 0x72), dispatch_decstbm]
+            · simp only [param_00, param_01]
+              rw [decstbm_reset]
+              refine ⟨⟨rfl, rfl, ?_, ?_, rfl, rfl, rfl, rfl, rfl, rfl⟩, rfl, ?_, ?_, ?_, ?_⟩ <;> simp only [] <;> omega
+            · exact hg
+            · exact fin_r
+          · exact hg
+          · simp only []; omega
+          · simp only []; omega
+          · exact ⟨hl1, hc1⟩
+          · refine ⟨rfl, rfl, ?_, ?_⟩ <;> simp only [] <;> omega
+      · exfalso
+        unfold scrollrect at hret
+        rw [if_neg h0] at hret
+        simp only [] at hret
+        rw [if_neg hB1, if_neg hB2] at hret
+        cases hret
+
 end Tickit.Props.C09
